@@ -124,3 +124,37 @@ Example C07_walker_code_nonvacuous :
     [s "doc"; s "items"; s "k"] []
   = Ret ([VStr (s "1"); VStr (s "2"); VStr (s "3")], 3%Z).
 Proof. vm_compute. reflexivity. Qed.
+
+(* the EXPORTED entry points: go2v's translations of Map.ValuesForPath and Map.oldValuesForPath, with every function they
+   call instantiated by the translated callee itself (getSubKeyMap, hasSubKeys, parsePath, valuesForKeyPath run with enough
+   fuel; only the indexed-path loop valuesForArray is the hand-written model), ARE the model's values_for_path /
+   old_values_for_path: same values in the same order, same error class, and a panic of the code exactly where the model
+   says Panic (nowhere: C07_no_panic) *)
+From Mxj Require Import GenProofs.PureG5.
+
+Theorem C07_values_for_path_code_is_model : forall pf st m path subkeys,
+  g_fieldSep st <> [] ->
+  fn_ValuesForPath (run_getSubKeyMap pf st) (run_hasSubKeys st) (run_oldValuesForPath pf st) (run_parsePath st) model_valuesForArray
+    st m path subkeys
+  = of_res (values_for_path pf (g_fieldSep st) (VMap m) path subkeys).
+Proof. exact values_for_path_code_is_model. Qed.
+Print Assumptions C07_values_for_path_code_is_model.
+
+Theorem C07_old_values_for_path_code_is_model : forall pf st m path subkeys,
+  g_fieldSep st <> [] ->
+  fn_oldValuesForPath (run_getSubKeyMap pf st) (run_valuesForKeyPath st) st m path subkeys
+  = of_res (old_values_for_path pf (g_fieldSep st) (VMap m) path subkeys).
+Proof. exact old_values_for_path_code_is_model. Qed.
+Print Assumptions C07_old_values_for_path_code_is_model.
+
+Example C07_entry_code_nonvacuous :
+  g_fieldSep gstate0 <> [] /\
+  fn_ValuesForPath (run_getSubKeyMap (fun x => Some x) gstate0) (run_hasSubKeys gstate0) (run_oldValuesForPath (fun x => Some x) gstate0)
+    (run_parsePath gstate0) model_valuesForArray gstate0
+    [(s "doc", VMap [(s "items", VList [VMap [(s "k", VStr (s "1")); (s "t", VStr (s "a"))]; VMap [(s "k", VStr (s "2")); (s "t", VStr (s "b"))]])])]
+    (s "doc.items.k") [] = Ret (Ok [VStr (s "1"); VStr (s "2")]) /\
+  fn_ValuesForPath (run_getSubKeyMap (fun x => Some x) gstate0) (run_hasSubKeys gstate0) (run_oldValuesForPath (fun x => Some x) gstate0)
+    (run_parsePath gstate0) model_valuesForArray gstate0
+    [(s "doc", VMap [(s "items", VList [VMap [(s "k", VStr (s "1")); (s "t", VStr (s "a"))]; VMap [(s "k", VStr (s "2")); (s "t", VStr (s "b"))]])])]
+    (s "doc.items[1]") [s "t:b"] = Ret (Ok [VMap [(s "k", VStr (s "2")); (s "t", VStr (s "b"))]]).
+Proof. split; [discriminate|split; vm_compute; reflexivity]. Qed.
